@@ -85,8 +85,8 @@ R4 = {
  "C04-5": dict(property="C04",
    what="check_mpp_timeout: the completeness test became a countdown with checked_sub and == Some(0): a payment whose parts overshoot total_msat counts as incomplete and is failed back with MPPTimeout after it was shown as claimable",
    needs="parts whose onion amounts sum to strictly more than total_msat, left unclaimed for MPP_TIMEOUT_TICKS timer ticks",
-   checks={"tools/rehearse.sh r4d C04 <patch> quick": "PENDING"},
-   detected=[]),
+   checks={"tools/rehearse.sh r4d C04 <patch> quick": "exit 1, 10 VIOLATION lines; baseline exit 0 (1 KNOWN-FINDING line)"},
+   detected=["C04"]),
  "C13-5": dict(property="C13",
    what="msgs.rs, decoders of QueryShortChannelIds and ReplyChannelRange: the `== 0` test moved to the scid byte count: an EMPTY short_channel_ids list (encoding_len = 1) no longer decodes",
    needs="a reply_channel_range / query_short_channel_ids carrying zero scids going through the byte decoder",
@@ -97,8 +97,38 @@ R4 = {
    needs="the fulfil reaching a hop whose upstream channel cannot generate a commitment right then (awaiting a revoke_and_ack, monitor write in flight, peer disconnected)",
    checks={"./check C14 quick (first version)": "MISSED by construction (the onion engine has no channels)",
            "tools/trial.sh s4c14 <patch> + random 3-node `default` profile (200 runs), after the PaymentPathSuccessful event records hops / hold_times and ChanTrace.tla states G14": "rejected (run 2: hold_times 0 for a 2-hop path); accepted on the unchanged tree",
-           "tools/rehearse.sh r4d C14 <patch> quick": "PENDING"},
+           "tools/rehearse.sh r4d C14 <patch> quick": "exit 1, 15 VIOLATION lines; baseline exit 0"},
    detected=["C14 (after strengthening)"]),
+ "C15-5": dict(property="C15",
+   what="PeerManager::do_attempt_write_data: after send_data the completion test compares data_sent with the whole buffer's length instead of what was still pending, the offset is bumped only in the else-branch: after a short write the finished message is never popped, the queue wedges (later messages neither delivered nor the peer disconnected)",
+   needs="a send_data that accepts some but not all bytes it is handed, then the socket drains",
+   checks={"tools/rehearse.sh r4g C15 <patch> quick": "exit 1, 5 VIOLATION lines; baseline exit 0"},
+   detected=["C15"]),
+ "C16-5": dict(property="C16",
+   what="router.rs CandidateRouteHop::htlc_minimum_msat, FirstHop arm: the counterparty's static outbound_htlc_minimum_msat instead of the channel's current next_outbound_htlc_minimum_msat",
+   needs="a first-hop channel whose current minimum was raised by its dust exposure, a dust-sized amount, another channel that could carry it",
+   checks={"tools/rehearse.sh r4h C16 <patch> quick": "exit 1, 10 VIOLATION lines (2336 of 97784 records falsified); baseline exit 0"},
+   detected=["C16"]),
+ "C17-5": dict(property="C17",
+   what="NetworkGraph::remove_stale_channels_and_tracking_with_time: a stale direction 1 clears one_to_two instead of two_to_one",
+   needs="a prune while only the second direction's update is stale and the announcement is recent",
+   checks={"tools/rehearse.sh r4h C17 <patch> quick": "exit 1, 5 VIOLATION lines; baseline exit 0"},
+   detected=["C17"]),
+ "C18-5": dict(property="C18",
+   what="lightning-invoice ser.rs encode_int_be_base32 writes the value 0 as one symbol while the length computation says 0: an invoice with expiry_time(0) or min_final_cltv_expiry_delta(0) does not parse back",
+   needs="an `x` or `c` field with value exactly 0",
+   checks={"tools/rehearse.sh r4i C18 <patch> quick": "exit 1, 5 VIOLATION lines; baseline exit 0"},
+   detected=["C18"]),
+ "C19-5": dict(property="C19",
+   what="ChainMonitor::update_channel_internal: when update_monitor refuses an update the persister is handed Some(update) instead of a full monitor write: MonitorUpdatingPersister stores the refused update, recovery replays it and fails",
+   needs="incremental persister, a commitment update arriving after the monitor went on chain, its id not a multiple of maximum_pending_updates, restart before the next consolidation",
+   checks={"tools/rehearse.sh r4h C19 <patch> quick": "PENDING"},
+   detected=[]),
+ "C20-5": dict(property="C20",
+   what="SpvClient::update_chain_tip: on a partially completed sync the client adopts the tip it reached only if it has more work than the old one (was: if it differs): its chain_tip goes stale relative to where the listener was left",
+   needs="a reorg whose fetch_block fails before the new branch has overtaken the old tip's work, then a poll whose best tip extends the old branch",
+   checks={"tools/rehearse.sh r4f C20 <patch> quick": "exit 1, 5 VIOLATION lines; baseline exit 0"},
+   detected=["C20"]),
 }
 
 
